@@ -280,7 +280,7 @@ def run(ctx):
                         'coefficient tensors are modelled by a normal form (shifted logits / first arg-max / Gumbel noise id); soft-max values are compared with tolerance 1e-5',
                         'train()/eval() is applied to the restored wrapper explicitly (the training flag is never part of a PyTorch state_dict)']
 
-    if not ctx.violations and not ctx.known_printed:
+    if not ctx.violations:   # a printed KNOWN-FINDING must not hide a broken proof / model / correspondence
         if not built:
             ctx.violation('proof-broken', {'theorems': [o[0] for o in ctx.obligations if not o[1]], 'log': getattr(ctx, 'broken_log', '')[-3000:]}, 'Props/C17.v no longer checks', no_input=True)
         elif not model_ok:
